@@ -6,6 +6,9 @@ pub mod decode {
 //@include frag/decode.tpl
 }
 pub mod shims {
+    pub mod scursor {
+//@include frag/scursor_shim.tpl
+    }
     pub mod btree {
 //@include frag/btree_shim.tpl
     }
